@@ -143,7 +143,8 @@ func unmarshalRows(v any, scanner rowsScanner, strict bool) error {
 			return ErrUnsupportedValueType
 		}
 
-		return nil
+		// Next 返回 false 既可能是读完了，也可能是驱动在取行时出错。
+		return scanner.Err()
 	default:
 		return ErrUnsupportedValueType
 	}
